@@ -28,7 +28,7 @@ MkTax(p, rv, nv, av, w) ==
   [ parent |-> p,
     rank   |-> [x \in 1..n |-> IF rv = 3 THEN Ranks[(x % 3) + 1] ELSE Ranks[((DepthP(p, x) + rv) % 3) + 1]],
     name   |-> [x \in 1..n |-> SciPool[((x + nv) % 5) + 1]],
-    alt    |-> [x \in 1..n |-> CASE (x + av) % 3 = 0 -> <<"syn" \o ToString(x), "ab x">>
+    alt    |-> [x \in 1..n |-> CASE (x + av) % 3 = 0 -> IF x % 2 = 0 THEN <<"syn" \o ToString(x), "ab x">> ELSE <<"syn" \o ToString(x), "ab x", "c ab">>
                                  [] (x + av) % 3 = 1 -> <<"cab">>
                                  [] OTHER -> <<>>],
     alias  |-> SelectSeq([i \in 1..n |-> <<n + i, i>>], LAMBDA pr : (pr[2] + w) % 2 = 0) ]
